@@ -4,6 +4,7 @@ import (
 	"os"
 
 	"verif/mc/core"
+	_ "verif/mc/props/c01"
 	_ "verif/mc/props/c02"
 	_ "verif/mc/props/c03"
 	_ "verif/mc/props/c05"
